@@ -4,9 +4,9 @@ EXTENDS Pure, Json, IOUtils
 Rec == ndJsonDeserialize(IOEnv.TRACE)
 VARIABLE l
 Ev == Rec[l]
-IsEvent(e) == l <= Len(Rec) /\ Rec[l].ev = e /\ l' = l + 1
+IsEvent(e) == l <= Len(Rec) /\ Rec[l].ev = e /\ l' = l + 1 /\ TLCSet(8, l)
               /\ Chk("C19.panic", ~Rec[l].panic) /\ Chk("C19.timeout", ~Rec[l].timeout)
-TInit == l = 1
+TInit == l = 1 /\ TLCSet(8, 0)
 TReset == IsEvent("Reset")
 TPred == IsEvent("Pred") /\ Pred(Ev.args, Ev.res)
 TMeasure == IsEvent("Measure") /\ Measure(Ev.args, Ev.res)
